@@ -42,6 +42,7 @@ def check(scn, H, view=None):
             out.append(Violation(PROP, sig, kw))
         for k in range(n):
             v.stats['instants'] += 1
+            eta = v.eta_at(ep, k)
             # (a) the external load: one call per instant, on the recorded
             #     state and this instant's time
             cs = calls.get((ep['index'], k), [])
@@ -60,13 +61,13 @@ def check(scn, H, view=None):
                          recorded=L[N - 1][k])
             # (b) load torque upstream
             for p in range(N - 1, 0, -1):
-                exp = L[p][k] / (v.eta[p] * v.r[p]) if v.eta[p] != 0 else None
+                exp = L[p][k] / (eta[p] * v.r[p]) if eta[p] != 0 else None
                 if exp is None:
                     continue
                 if not close(L[p - 1][k], exp):
                     viol(f'load-upstream/{pair_tag(v, p - 1)}', k, pair=p - 1,
                          upstream=L[p - 1][k], downstream=L[p][k],
-                         eta=v.eta[p], ratio=v.r[p])
+                         eta=eta[p], ratio=v.r[p])
             # (c) motor characteristic
             if pwm is not None and k < len(pwm) and pwm[k] is not None:
                 ref = rm.motor_torque(v.mot, w0[k], pwm[k])
@@ -76,11 +77,11 @@ def check(scn, H, view=None):
                          speed=w0[k], pwm=pwm[k])
             # (d) driving torque downstream
             for p in range(1, N):
-                exp = D[p - 1][k] * v.eta[p] * v.r[p]
+                exp = D[p - 1][k] * eta[p] * v.r[p]
                 if not close(D[p][k], exp):
                     viol(f'drive-downstream/{pair_tag(v, p - 1)}', k, pair=p - 1,
                          upstream=D[p - 1][k], downstream=D[p][k],
-                         eta=v.eta[p], ratio=v.r[p])
+                         eta=eta[p], ratio=v.r[p])
             # (e) net torque
             for p in range(N):
                 if not close(T[p][k], D[p][k] - L[p][k],
